@@ -72,14 +72,7 @@ filter_specs = st.one_of(
     st.builds(lambda ft, m: {"ft": ft, "mask": m}, st.sampled_from(["pair", "edge"]), _masks),
 )
 
-edge__masks = st.one_of(
-    st.sampled_from([0, 0xFFFF]),
-    st.integers(0, 0xFFFF),
-    st.integers(0, 15).map(lambda k: 0xFFFF ^ (1 << k)),
-    st.tuples(st.integers(0, 15), st.integers(0, 15)).map(lambda t: 0xFFFF ^ (1 << t[0]) ^ (1 << t[1]) if t[0] != t[1] else 0xFFFF ^ (1 << t[0])),
-)
-
-filter_specs = st.one_of(
+edge_filter_specs = st.one_of(
     st.none(),
     st.builds(lambda m: {"ft": "edge", "mask": m}, _masks),
 )
